@@ -914,6 +914,201 @@ def execHIncrBy (s : State) (k : Nat) (f : Nat) (d : Int) : State × Reply :=
       if inI64 (v + d) then (putHash s k (NMap.insert f (showInt (v + d)) h) dl, .int (v + d))
       else (s, .err .overflow)
 
+/-! ## sorted sets -/
+
+def Score.lt : Score → Score → Bool
+  | .ninf, .ninf => false
+  | .ninf, _ => true
+  | .fin _, .ninf => false
+  | .fin a, .fin b => decide (a < b)
+  | .fin _, .pinf => true
+  | .pinf, _ => false
+
+def Score.le (a b : Score) : Bool := a.lt b || a == b
+
+/-- bytewise lexicographic order (memcmp, then the shorter string first) -/
+def bsLt : BS → BS → Bool
+  | [], [] => false
+  | [], _ :: _ => true
+  | _ :: _, [] => false
+  | a :: as, b :: bs => decide (a < b) || (a == b && bsLt as bs)
+
+abbrev ZL := List (BS × Score)
+
+/-- order of a sorted set: by score, ties by member bytes -/
+def zLt (a b : BS × Score) : Bool := a.2.lt b.2 || (a.2 == b.2 && bsLt a.1 b.1)
+
+def zScore : ZL → BS → Option Score
+  | [], _ => none
+  | (m', sc) :: z, m => if m = m' then some sc else zScore z m
+
+def zRemove (m : BS) : ZL → ZL
+  | [] => []
+  | (m', sc) :: z => if m = m' then z else (m', sc) :: zRemove m z
+
+/-- insert at the sorted position (the member must not be present) -/
+def zInsert (m : BS) (sc : Score) : ZL → ZL
+  | [] => [(m, sc)]
+  | p :: z => if zLt (m, sc) p then (m, sc) :: p :: z else p :: zInsert m sc z
+
+/-- canonical text of a score (integers as `%.17g` prints them, `inf`, `-inf`) -/
+def showScore : Score → BS
+  | .ninf => [45, 105, 110, 102]
+  | .pinf => [105, 110, 102]
+  | .fin i => showInt i
+
+inductive ZLookup
+  | missing
+  | wrong
+  | found (z : ZL) (dl : Option Nat)
+
+def lookupZ (s : State) (k : Nat) : ZLookup :=
+  match NMap.get s k with
+  | none => .missing
+  | some e =>
+    match e.val with
+    | .zset z => .found z e.dl
+    | _ => .wrong
+
+def putZ (s : State) (k : Nat) (z : ZL) (dl : Option Nat) : State :=
+  match z with
+  | [] => NMap.erase k s
+  | _ :: _ => NMap.insert k ⟨.zset z, dl⟩ s
+
+structure ZFlags where
+  nx : Bool
+  xx : Bool
+  gt : Bool
+  lt : Bool
+  ch : Bool
+  deriving DecidableEq, Repr
+
+def zflagsCompatible (f : ZFlags) : Bool :=
+  !(f.nx && f.xx) && !(f.gt && f.lt) && !(f.nx && (f.gt || f.lt))
+
+/-- one (score, member) of ZADD: result = (zset, added?, updated?).  NX never touches an
+    existing member, XX never adds, GT/LT only restrict UPDATES (new members are still added) -/
+def zaddOne (f : ZFlags) (z : ZL) (m : BS) (sc : Score) : ZL × Nat × Nat :=
+  match zScore z m with
+  | none => if f.xx then (z, 0, 0) else (zInsert m sc z, 1, 0)
+  | some old =>
+    if f.nx then (z, 0, 0)
+    else if f.gt && !(old.lt sc) then (z, 0, 0)
+    else if f.lt && !(sc.lt old) then (z, 0, 0)
+    else if sc = old then (z, 0, 0)
+    else (zInsert m sc (zRemove m z), 0, 1)
+
+def zaddAll (f : ZFlags) : ZL → List (BS × Score) → ZL × Nat × Nat
+  | z, [] => (z, 0, 0)
+  | z, (m, sc) :: ps =>
+    ((zaddAll f (zaddOne f z m sc).1 ps).1,
+     (zaddAll f (zaddOne f z m sc).1 ps).2.1 + (zaddOne f z m sc).2.1,
+     (zaddAll f (zaddOne f z m sc).1 ps).2.2 + (zaddOne f z m sc).2.2)
+
+def zaddReply (f : ZFlags) (r : ZL × Nat × Nat) : Reply :=
+  .int (if f.ch then r.2.1 + r.2.2 else r.2.1)
+
+/-- ZADD key [NX|XX] [GT|LT] [CH] score member …: XX on a missing key does nothing (no key is
+    created); a new sorted set has no deadline, an existing one keeps its own -/
+def execZAdd (s : State) (k : Nat) (f : ZFlags) (ps : List (BS × Score)) : State × Reply :=
+  if !zflagsCompatible f then (s, .err .badFlags)
+  else
+    match ps with
+    | [] => (s, .err .syntax)
+    | _ :: _ =>
+      match lookupZ s k with
+      | .wrong => (s, .err .wrongType)
+      | .missing =>
+        if f.xx then (s, .int 0)
+        else (putZ s k (zaddAll f [] ps).1 none, zaddReply f (zaddAll f [] ps))
+      | .found z dl => (putZ s k (zaddAll f z ps).1 dl, zaddReply f (zaddAll f z ps))
+
+def zremAll : ZL → List BS → ZL × Nat
+  | z, [] => (z, 0)
+  | z, m :: ms =>
+    match zScore z m with
+    | none => zremAll z ms
+    | some _ => ((zremAll (zRemove m z) ms).1, (zremAll (zRemove m z) ms).2 + 1)
+
+def execZRem (s : State) (k : Nat) (ms : List BS) : State × Reply :=
+  match lookupZ s k with
+  | .missing => (s, .int 0)
+  | .wrong => (s, .err .wrongType)
+  | .found z dl => (putZ s k (zremAll z ms).1 dl, .int (zremAll z ms).2)
+
+def zElems (withScores : Bool) (z : ZL) : List Elem :=
+  z.flatMap (fun p => if withScores then [Elem.bulk p.1, Elem.bulk (showScore p.2)] else [Elem.bulk p.1])
+
+/-- ZRANGE / ZREVRANGE by rank (same normalisation as LRANGE) -/
+def execZRange (s : State) (k : Nat) (a b : Int) (ws rev : Bool) : State × Reply :=
+  match lookupZ s k with
+  | .missing => (s, .arr [])
+  | .wrong => (s, .err .wrongType)
+  | .found z _ =>
+    (s, .arr (zElems ws (slice (if rev then z.reverse else z) (lrangeNorm z.length a b))))
+
+def execZScore (s : State) (k : Nat) (m : BS) : State × Reply :=
+  match lookupZ s k with
+  | .missing => (s, .nil)
+  | .wrong => (s, .err .wrongType)
+  | .found z _ =>
+    match zScore z m with
+    | none => (s, .nil)
+    | some sc => (s, .bulk (showScore sc))
+
+def zRankAux : ZL → BS → Nat → Option Nat
+  | [], _, _ => none
+  | (m', _) :: z, m, i => if m = m' then some i else zRankAux z m (i + 1)
+
+def execZRank (s : State) (k : Nat) (m : BS) : State × Reply :=
+  match lookupZ s k with
+  | .missing => (s, .nil)
+  | .wrong => (s, .err .wrongType)
+  | .found z _ =>
+    match zRankAux z m 0 with
+    | none => (s, .nil)
+    | some i => (s, .int i)
+
+def execZCard (s : State) (k : Nat) : State × Reply :=
+  match lookupZ s k with
+  | .missing => (s, .int 0)
+  | .wrong => (s, .err .wrongType)
+  | .found z _ => (s, .int z.length)
+
+/-- a score bound: `(` = exclusive.  `none` = "min or max is not a float" -/
+structure Bound where
+  excl : Bool
+  v : Score
+  deriving DecidableEq, Repr
+
+def inRange (lo hi : Bound) (sc : Score) : Bool :=
+  (if lo.excl then lo.v.lt sc else lo.v.le sc) && (if hi.excl then sc.lt hi.v else sc.le hi.v)
+
+/-- ZCOUNT: the range is parsed BEFORE the key is looked up -/
+def execZCount (s : State) (k : Nat) (lo hi : Option Bound) : State × Reply :=
+  match lo, hi with
+  | some lo, some hi =>
+    match lookupZ s k with
+    | .missing => (s, .int 0)
+    | .wrong => (s, .err .wrongType)
+    | .found z _ => (s, .int (z.filter (fun p => inRange lo hi p.2)).length)
+  | _, _ => (s, .err .notFloat)
+
+/-- LIMIT offset count: a negative offset selects nothing -/
+def applyLimit (l : ZL) : Option (Int × Nat) → ZL
+  | none => l
+  | some (off, cnt) => if off < 0 then [] else (l.drop off.toNat).take cnt
+
+def execZRangeByScore (s : State) (k : Nat) (lo hi : Option Bound) (ws : Bool)
+    (lim : Option (Int × Nat)) : State × Reply :=
+  match lo, hi with
+  | some lo, some hi =>
+    match lookupZ s k with
+    | .missing => (s, .arr [])
+    | .wrong => (s, .err .wrongType)
+    | .found z _ => (s, .arr (zElems ws (applyLimit (z.filter (fun p => inRange lo hi p.2)) lim)))
+  | _, _ => (s, .err .notFloat)
+
 /-! ## commands -/
 
 inductive Cmd
@@ -986,6 +1181,16 @@ inductive Cmd
   | hlen (k : Nat)
   | hexists (k : Nat) (f : Nat)
   | hincrby (k : Nat) (f : Nat) (d : Int)
+  -- sorted sets
+  | zadd (k : Nat) (f : ZFlags) (ps : List (BS × Score))
+  | zrem (k : Nat) (ms : List BS)
+  | zrange (k : Nat) (a b : Int) (ws : Bool)
+  | zrevrange (k : Nat) (a b : Int) (ws : Bool)
+  | zscore (k : Nat) (m : BS)
+  | zrank (k : Nat) (m : BS)
+  | zcard (k : Nat)
+  | zcount (k : Nat) (lo hi : Option Bound)
+  | zrangebyscore (k : Nat) (lo hi : Option Bound) (ws : Bool) (lim : Option (Int × Nat))
   deriving Repr
 
 /-- execute on a state that holds no dead entry -/
@@ -1053,6 +1258,15 @@ def exec (s : State) (now : Nat) : Cmd → State × Reply
   | .hlen k => execHLen s k
   | .hexists k f => execHExists s k f
   | .hincrby k f d => execHIncrBy s k f d
+  | .zadd k f ps => execZAdd s k f ps
+  | .zrem k ms => execZRem s k ms
+  | .zrange k a b ws => execZRange s k a b ws false
+  | .zrevrange k a b ws => execZRange s k a b ws true
+  | .zscore k m => execZScore s k m
+  | .zrank k m => execZRank s k m
+  | .zcard k => execZCard s k
+  | .zcount k lo hi => execZCount s k lo hi
+  | .zrangebyscore k lo hi ws lim => execZRangeByScore s k lo hi ws lim
 
 /-- one command at instant `now` -/
 def step (s : State) (now : Nat) (c : Cmd) : State × Reply := exec (purge s now) now c
@@ -1070,10 +1284,19 @@ def isReadOnly : Cmd → Bool
   | .ttl _ | .pttl _ | .expiretime _ | .pexpiretime _ | .randomkey _ | .dbsize
   | .llen _ | .lindex _ _ | .lrange _ _ _
   | .smembers _ | .sismember _ _ | .scard _
-  | .hget _ _ | .hgetall _ | .hkeys _ | .hvals _ | .hlen _ | .hexists _ _ => true
+  | .hget _ _ | .hgetall _ | .hkeys _ | .hvals _ | .hlen _ | .hexists _ _
+  | .zrange _ _ _ _ | .zrevrange _ _ _ _ | .zscore _ _ | .zrank _ _ | .zcard _ | .zcount _ _ _
+  | .zrangebyscore _ _ _ _ _ => true
   | _ => false
 
 /-! ## invariant -/
+
+/-- canonical form of a sorted set: strictly increasing in (score, member) and no member twice
+    (so the "index" — the order — and the member ↦ score map cannot disagree) -/
+def ZCanon (z : ZL) : Prop :=
+  z.Pairwise (fun a b => zLt a b = true) ∧ z.Pairwise (fun a b => a.1 ≠ b.1)
+
+instance : DecidablePred ZCanon := fun z => by unfold ZCanon; infer_instance
 
 /-- no empty collection is stored; inner maps are canonical -/
 def ValueOk : Value → Prop
@@ -1081,7 +1304,7 @@ def ValueOk : Value → Prop
   | .list l => l ≠ []
   | .set m => m ≠ [] ∧ NMap.WF m
   | .hash h => h ≠ [] ∧ NMap.WF h
-  | .zset z => z ≠ []
+  | .zset z => z ≠ [] ∧ ZCanon z
 
 instance : DecidablePred ValueOk := fun v => by
   cases v <;> unfold ValueOk <;> infer_instance
